@@ -3,16 +3,17 @@
 # applies a stored seeded change to a scratch worktree of /repo (never to /repo itself), runs the given checks
 # against it (VERIF_REPO) and reverts. Used to re-confirm that the checks still catch every kept seed.
 NAME=$1; shift
+ROOT=$(cd "$(dirname "$0")/.." && pwd)
 WT=${MUTWT:-/tmp/mutwt}
 export GOFLAGS=-mod=mod GOPROXY=off GOSUMDB=off GOTOOLCHAIN=local
 if [ ! -d $WT ]; then git -C /repo worktree add -q --detach $WT HEAD || exit 1; fi
 cd $WT || exit 1
 git checkout -q --detach $(git -C /repo rev-parse HEAD) 2>/dev/null
 git checkout -q -- . ; git clean -fdq
-git apply /verif/seeded/$NAME/patch.diff || { echo "PATCH DOES NOT APPLY: $NAME"; exit 1; }
+git apply $ROOT/seeded/$NAME/patch.diff || { echo "PATCH DOES NOT APPLY: $NAME"; exit 1; }
 go build ./... || { git checkout -q -- .; echo "SEED DOES NOT BUILD: $NAME"; exit 1; }
 for id in "$@"; do
-  out=$(cd /verif && VERIF_REPO=$WT ./check $id 2>&1)
+  out=$(cd $ROOT && VERIF_REPO=$WT ./check $id 2>&1)
   echo "== $NAME $id: $(echo "$out" | grep -a -c '^VIOLATION') violation lines; $(echo "$out" | grep -a -E '^(HELD|INCONCLUSIVE)' | head -1)"
   echo "$out" | grep -a -A1 '^VIOLATION' | grep -a 'what:' | head -4
 done
